@@ -370,14 +370,18 @@ def wl_history(ctx, rng, i):
         check_store(ctx, "MemoryStore", mem, model, history, case)
         check_store(ctx, "FileSystemStore", fs, model, history, case)
         # save / load
-        path = os.path.join(tmp, "saved.json")
+        # (a file name, a file in directories which do not exist yet, or a directory: the store then names the file itself and says where it is)
+        pform = rng.choice(["file", "file", "file-in-new-directories", "directory", "new-directory/"])
+        path = {"file": os.path.join(tmp, "saved.json"), "file-in-new-directories": os.path.join(tmp, "a", "b", "saved.json"), "directory": tmp,
+                "new-directory/": os.path.join(tmp, "newdir") + os.sep}[pform]
+        ctx.see("save_to_file path forms", pform)
         ctx.ev()
         try:
             with warnings.catch_warnings():
                 warnings.simplefilter("ignore")
-                mem.save_to_file(path)
+                written = mem.save_to_file(path)
                 mem2 = stix2.MemoryStore()
-                mem2.load_from_file(path)
+                mem2.load_from_file(written if pform != "file" else path)
             check_store(ctx, "MemoryStore(after save/load)", mem2, model, history, case)
             ctx.count("save_load_cycles")
         except Exception as e:
@@ -386,6 +390,26 @@ def wl_history(ctx, rng, i):
                 ctx.skip("save_to_file of a store mixing 2.0 and 2.1 objects refused (%s)" % type(e).__name__)
             else:
                 ctx.violation("save-load-raised", "save_to_file/load_from_file raised %s: %s" % (type(e).__name__, str(e)[:200]), dict(case, exception=repr(e)))
+        # loading a file into a store which is not empty: what it held and what the file holds are both there afterwards, also
+        # when they are versions of the same id
+        if len(model.items) >= 2:
+            ctx.ev()
+            try:
+                with warnings.catch_warnings():
+                    warnings.simplefilter("ignore")
+                    held, filed = stix2.MemoryStore(), stix2.MemoryStore()
+                    for k_, j in enumerate(model.items):
+                        (held if k_ % 2 == 0 else filed).add(json.loads(json.dumps(j)))
+                    p2 = filed.save_to_file(os.path.join(tmp, "half.json"))
+                    (held if i % 2 == 0 else held.source).load_from_file(p2)
+                check_store(ctx, "MemoryStore(load into a non-empty store)", held, model, history, case)
+                ctx.count("loads_into_non_empty_store")
+            except Exception as e:
+                vers = {("spec_version" in x) for x in model.items[1::2]}
+                if len(vers) > 1:
+                    ctx.skip("save_to_file of a store mixing 2.0 and 2.1 objects refused (%s)" % type(e).__name__)
+                else:
+                    ctx.violation("save-load-raised", "loading a saved file into a non-empty store raised %s: %s" % (type(e).__name__, str(e)[:200]), dict(case, exception=repr(e)))
         # reopen the directory
         fs2 = stix2.FileSystemStore(fsdir, allow_custom=True)
         check_store(ctx, "FileSystemStore(reopened)", fs2, model, history, case)
